@@ -44,12 +44,12 @@ def scratch(prefix='vp'):
     return tempfile.mkdtemp(prefix=prefix + '-', dir=base)
 
 
-def native_truth(family, bounds, horizon):
+def native_truth(family, bounds, horizon, extra=()):
     """Returns {idx: result} of the exhaustive native exploration of every program of the family; cached on the
     content hash of the generated native module (depends on the generator and stubs, not on /repo)."""
     h = vp('gen-native', '-family', family, '-bounds', bounds, '-hash').stdout.split()
     hsh, n = h[0], int(h[1])
-    cache = f'{V}/build/truth/{family}-{hsh}-h{horizon}.jsonl'
+    cache = f'{V}/build/truth/{family}-{hsh}-h{horizon}{"-" + "-".join(extra) if extra else ""}.jsonl'
     if not os.path.exists(cache):
         os.makedirs(os.path.dirname(cache), exist_ok=True)
         d = scratch('native')
@@ -60,7 +60,7 @@ def native_truth(family, bounds, horizon):
                 tool_error('native build failed (generator bug):\n' + r.stderr[-4000:])
 
             def shard(i):
-                return subprocess.run([f'{d}/native', f'{i}/{NPROC}', str(horizon)], capture_output=True, text=True,
+                return subprocess.run([f'{d}/native', f'{i}/{NPROC}', str(horizon), *extra], capture_output=True, text=True,
                                       timeout=3600)
             with cf.ThreadPoolExecutor(NPROC) as ex:
                 outs = list(ex.map(shard, range(NPROC)))
